@@ -3,6 +3,8 @@ import Postcard.Model.JsonOf
 import Postcard.Lemmas.Varint
 import Postcard.Lemmas.Codec
 import Postcard.Lemmas.Decode
+import Postcard.Lemmas.Dyn
+import Postcard.Props.C15
 /-
   Postcard.Props.C17 — "Dynamic (schema-driven) codec agrees with the static
   codec and serde_json": for every type and value whose JSON form is
@@ -10,20 +12,37 @@ import Postcard.Lemmas.Decode
   schema yields exactly the bytes the static encoder yields, and decoding those
   bytes under the schema yields exactly the serde_json representation.
 
-  Model: Model/Json.lean (serde_json::Value), Model/Dyn.lean (postcard-dyn
-  ser.rs / de.rs, arm by arm), Model/JsonOf.lean (serde_json::to_value),
-  Model/Ser.lean (`enc`, the static encoder).
+  Model: Model/Json.lean (serde_json::Value; JSON form of a schema value),
+  Model/Dyn.lean (postcard-dyn ser.rs / de.rs, arm by arm, AFTER the repairs),
+  Model/JsonOf.lean (serde_json::to_value), Model/Ser.lean (`enc`, the static
+  encoder), Model/SchemaSer.lean (`serOwned`, `decOwnedBytes`).
 
-  Result: the full statements are FALSE of the current code (section H:
-  witnesses, all confirmed on the real crate; section J: `dyn_ser_agrees_false`,
-  `dyn_de_agrees_false`).  Proved: `dyn_ser_agrees_partial`,
-  `dyn_de_agrees_partial` on the domain `DynSupported` (section C) which excludes
-  exactly the shapes of the witnesses.
+  Result: the full statements hold of the repaired code on the whole scope of
+  the property (`Faithful`), INCLUDING the `Schema` kind: `dyn_ser_agrees`,
+  `dyn_de_agrees`, `fromSliceDyn_agrees` (section J).
+
+  Repaired since the previous round (the refutations `dyn_ser_agrees_false`,
+  `dyn_de_agrees_false` and the witnesses are now positive examples, section H):
+    1. de: `Char` decoded (was `todo!()`);            2. ser: `Char` must be one scalar;
+    3. ser+de: `Schema` kind via serde (was `todo!()`); 4. tuples of arity 0 and 1 are arrays;
+    5. `I128` in `2^63 ..= u64::MAX`;                  6. ser: `F32` overflow refused.
+
+  Helper lemmas live in `namespace Postcard.Dyn`; the scope predicates and the
+  property theorems in `namespace Postcard`.
 -/
 set_option linter.unusedSimpArgs false
 set_option linter.unusedVariables false
 
 namespace Postcard
+
+/-- names pairwise distinct. -/
+def namesNodup : List Name → Bool
+  | [] => true
+  | n :: ns => !(ns.contains n) && namesNodup ns
+
+end Postcard
+
+namespace Postcard.Dyn
 
 /-! ## A. the crate's private varint / zig-zag copies equal postcard's -/
 
@@ -70,10 +89,6 @@ theorem dynTakeVarint_eq (bits : Nat) (bs : List Byte) :
 theorem dynTakeVarint_enc {bits n : Nat} (hb : WidthOk bits) (h : n < 2 ^ bits) (rest : List Byte) :
     dynTakeVarint bits (encVarint bits n ++ rest) = .ok (n, rest) := by
   rw [dynTakeVarint_eq, decVarint_encVarint hb h]; rfl
-
-end Postcard
-
-namespace Postcard
 
 /-! ## B. association-list (`serde_json::Map`) lemmas -/
 
@@ -200,11 +215,6 @@ theorem length_insert_notin {k : List Byte} (v : Json) :
     · simp
     · simp [length_insert_notin v rest (by simpa [keysOf] using h.2)]
 
-/-- names pairwise distinct. -/
-def namesNodup : List Name → Bool
-  | [] => true
-  | n :: ns => !(ns.contains n) && namesNodup ns
-
 theorem length_insertAll : ∀ (ps acc : List (List Byte × Json)),
     namesNodup (keysOf ps) = true → (∀ k ∈ keysOf ps, k ∉ keysOf acc) →
       (objInsertAll acc ps).length = acc.length + ps.length
@@ -262,7 +272,7 @@ theorem getsAll_insertAll : ∀ (ns : List Name) (js : List Json) (acc : List (L
     · simp only [zipNames, objInsertAll]
       exact getsAll_insertAll ns js _ hn.2 hl
 
-end Postcard
+end Postcard.Dyn
 
 namespace Postcard
 
@@ -312,8 +322,8 @@ def faithful (fo : FloatOps) : NVal → Bool
   | .newtypeVariant _ _ v => faithful fo v
   | .seq vs => faithfulList fo vs
   | .tuple vs => faithfulList fo vs
-  | .tupleStruct vs => faithfulList fo vs && decide (vs.length ≠ 1)    -- serde: 1 unnamed field = newtype
-  | .tupleVariant _ _ vs => faithfulList fo vs && decide (vs.length ≠ 1)
+  | .tupleStruct vs => faithfulList fo vs                              -- (any arity: since the repair, 1-tuples are arrays too)
+  | .tupleVariant _ _ vs => faithfulList fo vs
   | .map kvs => faithfulKV fo kvs && keysPairwiseLt (toJsonKV fo kvs)  -- string keys, strictly ascending
   | .struct names vs => faithfulList fo vs && namesNodup names         -- field names distinct
   | .structVariant _ _ names vs => faithfulList fo vs && namesNodup names
@@ -326,36 +336,17 @@ def faithfulKV (fo : FloatOps) : List NVal → Bool
   | _ => true
 end
 
-/-- `Faithful s v` of the property statement. -/
+/-- `Faithful s v` of the property statement: the schema has string-keyed maps
+only and the JSON form of the value is unambiguous (integers within what
+`serde_json` can hold — for `i128`: `i64 ∪ u64` —, finite floats, map keys
+strings in strictly ascending order, no `Some(x)` whose JSON is `null`,
+distinct field names). -/
 def Faithful (fo : FloatOps) (s : Schema) (v : NVal) : Prop :=
   stringKeyed s = true ∧ faithful fo v = true
 
-mutual
-/-- `dynSupported de v`: the value avoids the shapes on which the CURRENT code
-disagrees (`de = false`: encoding direction, `de = true`: decoding direction):
-* plain tuples / arrays of arity 1 (both directions) and of arity 0 (decoding);
-* tuple structs and tuple variants with zero fields (decoding);
-* `char` (decoding: `todo!()`);
-* `i128` values in `2^63 ..= u64::MAX` (JSON holds them as PosInt; dyn wants `as_i64`).
-(The `Schema` kind is absent because no `NVal` conforms to it.) -/
-def dynSupported (de : Bool) : NVal → Bool
-  | .i .w128 x => decide (x < (2 ^ 63 : Int))
-  | .char _ => !de
-  | .some v => dynSupported de v
-  | .newtypeStruct v => dynSupported de v
-  | .newtypeVariant _ _ v => dynSupported de v
-  | .seq vs => dynSupportedList de vs
-  | .tuple vs => dynSupportedList de vs && decide (vs.length ≠ 1) && (!de || decide (vs.length ≠ 0))
-  | .tupleStruct vs => dynSupportedList de vs && (!de || decide (vs.length ≠ 0))
-  | .tupleVariant _ _ vs => dynSupportedList de vs && (!de || decide (vs.length ≠ 0))
-  | .map kvs => dynSupportedList de kvs
-  | .struct _ vs => dynSupportedList de vs
-  | .structVariant _ _ _ vs => dynSupportedList de vs
-  | _ => true
-def dynSupportedList (de : Bool) : List NVal → Bool
-  | [] => true
-  | v :: vs => dynSupported de v && dynSupportedList de vs
-end
+end Postcard
+
+namespace Postcard.Dyn
 
 /-! ## D. small facts -/
 
@@ -388,16 +379,16 @@ theorem serByteElems_map : ∀ bs : List Byte,
     have hb : b.toNat < 2 ^ 8 := by have := b.toNat_lt; simpa using this
     simp [serByteElems, getU, Json.asU64, hb, serByteElems_map bs]
 
-theorem conformsFields_length : ∀ (ns : List Name) (vs : List NVal) (fs : List SField),
-    conformsFields ns vs fs = true → ns.length = vs.length ∧ fs.length = vs.length
+theorem conformsNFields_length : ∀ (ns : List Name) (vs : List NVal) (fs : List SField),
+    conformsNFields ns vs fs = true → ns.length = vs.length ∧ fs.length = vs.length
   | [], [], [], _ => by simp
-  | [], [], _ :: _, h => by simp [conformsFields] at h
-  | [], _ :: _, _, h => by simp [conformsFields] at h
-  | _ :: _, [], _, h => by simp [conformsFields] at h
-  | _ :: _, _ :: _, [], h => by simp [conformsFields] at h
+  | [], [], _ :: _, h => by simp [conformsNFields] at h
+  | [], _ :: _, _, h => by simp [conformsNFields] at h
+  | _ :: _, [], _, h => by simp [conformsNFields] at h
+  | _ :: _, _ :: _, [], h => by simp [conformsNFields] at h
   | n :: ns, v :: vs, .mk fn ty :: fs, h => by
-    simp [conformsFields] at h
-    have := conformsFields_length ns vs fs h.2
+    simp [conformsNFields] at h
+    have := conformsNFields_length ns vs fs h.2
     simp [this.1, this.2]
 
 theorem conformsNs_length : ∀ (vs : List NVal) (ts : List Schema),
@@ -410,11 +401,11 @@ theorem conformsNs_length : ∀ (vs : List NVal) (ts : List Schema),
     simp [conformsNs_length vs ts h.2]
 
 theorem toJsonKV_length (fo : FloatOps) : ∀ (kvs : List NVal) (k v : Schema),
-    conformsKV kvs k v = true → (toJsonKV fo kvs).length = kvs.length / 2
+    conformsNKV kvs k v = true → (toJsonKV fo kvs).length = kvs.length / 2
   | [], _, _, _ => rfl
-  | [_], _, _, h => by simp [conformsKV] at h
+  | [_], _, _, h => by simp [conformsNKV] at h
   | a :: b :: rest, k, v, h => by
-    simp [conformsKV] at h
+    simp [conformsNKV] at h
     simp [toJsonKV, toJsonKV_length fo rest k v h.2]
     omega
 
@@ -463,155 +454,149 @@ theorem stringKeyed_find (name : Name) (i : Nat) (d : SData) : ∀ (vs : List SV
     · simp at h; obtain ⟨_, rfl⟩ := h; exact hk.1
     · exact stringKeyed_find name i d rest (k + 1) h hk.2
 
-end Postcard
+end Postcard.Dyn
 
-namespace Postcard
+namespace Postcard.Dyn
 
 /-! ## E. encoding direction -/
 
-theorem dynSer_tuple_ne1 (fo : FloatOps) (ts : List Schema) (xs : List Json) (h : ts.length ≠ 1)
-    (hl : xs.length = ts.length) :
-    dynSer fo (.tuple ts) (.arr xs) = dynSerZip fo ts xs := by
-  match ts, h with
-  | [], _ => simp [dynSer, Json.asArray, hl]
-  | [_], h => simp at h
-  | _ :: _ :: _, _ => simp [dynSer, Json.asArray, hl]
+theorem asI64_posInt_big {n : Nat} (h : 2 ^ 63 ≤ n) : (Json.posInt n).asI64 = none := by
+  have : ¬ n ≤ 2 ^ 63 - 1 := by omega
+  simp [Json.asI64, this]
 
-theorem dynSer_structTuple_ne1 (fo : FloatOps) (nm : Name) (ts : List Schema) (xs : List Json)
-    (h : ts.length ≠ 1) (hl : xs.length = ts.length) :
-    dynSer fo (.struct nm (.tuple ts)) (.arr xs) = dynSerZip fo ts xs := by
-  match ts, h with
-  | [], _ => simp [dynSer, Json.asArray, hl]
-  | [_], h => simp at h
-  | _ :: _ :: _, _ => simp [dynSer, Json.asArray, hl]
-
-theorem dynSerVariant_tuple_ne1 (fo : FloatOps) (name : Name) (i : Nat) (ts : List Schema)
-    (xs : List Json) (bs : List Byte) (h : ts.length ≠ 1) (hl : xs.length = ts.length)
-    (hz : dynSerZip fo ts xs = .ok bs) :
-    dynSerVariant fo [.mk name (.tuple ts)] i name (.arr xs) = .ok (dynVarint 64 i ++ bs) := by
-  rw [dynSerVariant.eq_def]; dsimp only; rw [if_pos rfl]
-  match ts, h with
-  | [], _ => simp [Json.asArray, hl, hz]
-  | [_], h => simp at h
-  | _ :: _ :: _, _ => simp [Json.asArray, hl, hz]
+theorem oneScalar_encode {c : Nat} (h : isScalar c = true) : oneScalar (utf8Encode c) = true := by
+  have := utf8Next_encode h []
+  rw [List.append_nil] at this
+  simp [oneScalar, this]
 
 mutual
 theorem ser_val (fo : FloatOps) (hfo : FloatOk fo) : (v : NVal) → (s : Schema) →
-    conformsN v s = true → stringKeyed s = true → faithful fo v = true → dynSupported false v = true →
+    conformsN v s = true → stringKeyed s = true → faithful fo v = true →
     dynSer fo s (toJson fo v) = .ok (enc (erase v))
-  | .bool b, s, hc, hk, hf, hs => by
+  | .bool b, s, hc, hk, hf => by
     cases s <;> simp [conformsN] at hc
     cases b <;> simp [toJson, dynSer, Json.asBool, erase, enc]
-  | .u w n, s, hc, hk, hf, hs => by
+  | .u w n, s, hc, hk, hf => by
     simp [faithful] at hf
     cases s <;> cases w <;> simp [conformsN] at hc <;>
       simp [toJson, jsonOfNat, hf, hc, dynSer, getU, asU64R, Json.asU64, erase, enc, dynVarint_eq, IntW.bits]
-  | .i w x, s, hc, hk, hf, hs => by
+  | .i .w128 x, s, hc, hk, hf => by
     simp [faithful] at hf
-    cases s <;> cases w <;> simp [conformsN, IntW.inRangeI_iff, IntW.bits] at hc <;>
-      (try simp [dynSupported] at hs) <;>
+    cases s <;> simp [conformsN, IntW.inRangeI_iff, IntW.bits] at hc
+    by_cases hx : x < (2 ^ 63 : Int)
+    · have ha : (jsonOfInt x).asI64 = some x := asI64_jsonOfInt (by omega) hx
+      simp [toJson, dynSer, ha, erase, enc, dynVarint_eq, dynZigzag_eq, IntW.bits]
+    · have h0 : (0 : Int) ≤ x := by omega
+      have hj : jsonOfInt x = .posInt x.toNat := by simp [jsonOfInt, h0, hf.2]
+      have hb : (2 : Nat) ^ 63 ≤ x.toNat := by omega
+      have hcast : ((x.toNat : Nat) : Int) = x := by omega
+      simp [toJson, hj, dynSer, asI64_posInt_big hb, asU64R, Json.asU64, hcast, erase, enc, dynVarint_eq,
+        dynZigzag_eq, IntW.bits]
+  | .i .w8 x, s, hc, hk, hf => by
+    cases s <;> simp [conformsN, IntW.inRangeI_iff, IntW.bits] at hc
+    have ha : (jsonOfInt x).asI64 = some x := asI64_jsonOfInt (by omega) (by omega)
+    simp [toJson, dynSer, getI, asI64R, ha, hc, erase, enc, dynVarint_eq, dynZigzag_eq, IntW.bits]
+  | .i .w16 x, s, hc, hk, hf => by
+    cases s <;> simp [conformsN, IntW.inRangeI_iff, IntW.bits] at hc
+    have ha : (jsonOfInt x).asI64 = some x := asI64_jsonOfInt (by omega) (by omega)
+    simp [toJson, dynSer, getI, asI64R, ha, hc, erase, enc, dynVarint_eq, dynZigzag_eq, IntW.bits]
+  | .i .w32 x, s, hc, hk, hf => by
+    cases s <;> simp [conformsN, IntW.inRangeI_iff, IntW.bits] at hc
+    have ha : (jsonOfInt x).asI64 = some x := asI64_jsonOfInt (by omega) (by omega)
+    simp [toJson, dynSer, getI, asI64R, ha, hc, erase, enc, dynVarint_eq, dynZigzag_eq, IntW.bits]
+  | .i .w64 x, s, hc, hk, hf => by
+    cases s <;> simp [conformsN, IntW.inRangeI_iff, IntW.bits] at hc <;>
       (have ha : (jsonOfInt x).asI64 = some x := asI64_jsonOfInt (by omega) (by omega)) <;>
       simp [toJson, dynSer, getI, asI64R, ha, hc, erase, enc, dynVarint_eq, dynZigzag_eq, IntW.bits]
-  | .f32 b, s, hc, hk, hf, hs => by
+  | .f32 b, s, hc, hk, hf => by
     cases s <;> simp [conformsN] at hc
     simp [faithful] at hf
     simp [toJson, Json.ofF32, hf, dynSer, Json.asF64, hfo.rt32 b hc hf, erase, enc]
-  | .f64 b, s, hc, hk, hf, hs => by
+  | .f64 b, s, hc, hk, hf => by
     cases s <;> simp [conformsN] at hc
     simp [faithful] at hf
     simp [toJson, Json.ofF64, Json.numFromF64, hf, dynSer, Json.asF64, erase, enc]
-  | .char c, s, hc, hk, hf, hs => by
+  | .char c, s, hc, hk, hf => by
+    cases s <;> simp [conformsN] at hc
+    simp [toJson, dynSer, serStr, Json.asStr, oneScalar_encode hc, erase, enc, dynVarint_eq]
+  | .str u, s, hc, hk, hf => by
     cases s <;> simp [conformsN] at hc
     simp [toJson, dynSer, serStr, Json.asStr, erase, enc, dynVarint_eq]
-  | .str u, s, hc, hk, hf, hs => by
-    cases s <;> simp [conformsN] at hc
-    simp [toJson, dynSer, serStr, Json.asStr, erase, enc, dynVarint_eq]
-  | .bytes u, s, hc, hk, hf, hs => by
+  | .bytes u, s, hc, hk, hf => by
     cases s <;> simp [conformsN] at hc
     simp [toJson, dynSer, Json.asArray, serByteElems_map, erase, enc, dynVarint_eq]
-  | .none, s, hc, hk, hf, hs => by
+  | .none, s, hc, hk, hf => by
     cases s <;> simp [conformsN] at hc
     simp [toJson, dynSer, Json.isNull, erase, enc]
-  | .some v, s, hc, hk, hf, hs => by
+  | .some v, s, hc, hk, hf => by
     cases s <;> simp [conformsN] at hc
     simp [faithful] at hf
-    simp [dynSupported] at hs
     simp [stringKeyed] at hk
-    simp [toJson, dynSer, hf.2, ser_val fo hfo v _ hc hk hf.1 hs, erase, enc]
-  | .unit, s, hc, hk, hf, hs => by
+    simp [toJson, dynSer, hf.2, ser_val fo hfo v _ hc hk hf.1, erase, enc]
+  | .unit, s, hc, hk, hf => by
     cases s <;> simp [conformsN] at hc
     simp [toJson, dynSer, erase, enc]
-  | .unitStruct, s, hc, hk, hf, hs => by
+  | .unitStruct, s, hc, hk, hf => by
     cases s <;> try (simp [conformsN] at hc)
     rename_i nm d
     cases d <;> simp [conformsN] at hc
     simp [toJson, dynSer, erase, enc]
-  | .newtypeStruct v, s, hc, hk, hf, hs => by
+  | .newtypeStruct v, s, hc, hk, hf => by
     cases s <;> try (simp [conformsN] at hc)
     rename_i nm d
     cases d <;> simp [conformsN] at hc
     simp [faithful] at hf
-    simp [dynSupported] at hs
     simp [stringKeyed, stringKeyedData] at hk
-    simp [toJson, dynSer, ser_val fo hfo v _ hc hk hf hs, erase, enc]
-  | .seq vs, s, hc, hk, hf, hs => by
+    simp [toJson, dynSer, ser_val fo hfo v _ hc hk hf, erase, enc]
+  | .seq vs, s, hc, hk, hf => by
     cases s <;> simp [conformsN] at hc
     simp [faithful] at hf
-    simp [dynSupported] at hs
     simp [stringKeyed] at hk
-    simp [toJson, dynSer, Json.asArray, ser_all fo hfo vs _ hc.1 hk hf hs, erase, enc, dynVarint_eq,
+    simp [toJson, dynSer, Json.asArray, ser_all fo hfo vs _ hc.1 hk hf, erase, enc, dynVarint_eq,
       toJsonList_length, eraseList_length]
-  | .tuple vs, s, hc, hk, hf, hs => by
+  | .tuple vs, s, hc, hk, hf => by
     cases s <;> simp [conformsN] at hc
     rename_i ts
     simp [faithful] at hf
-    simp [dynSupported] at hs
     simp [stringKeyed] at hk
     have hl := conformsNs_length vs ts hc
-    rw [toJson, dynSer_tuple_ne1 fo ts _ (by omega) (by simp [toJsonList_length, hl]),
-      ser_zip fo hfo vs ts hc hk hf hs.1]
-    simp [erase, enc]
-  | .tupleStruct vs, s, hc, hk, hf, hs => by
+    simp [toJson, dynSer, Json.asArray, toJsonList_length, hl, ser_zip fo hfo vs ts hc hk hf, erase, enc]
+  | .tupleStruct vs, s, hc, hk, hf => by
     cases s <;> try (simp [conformsN] at hc)
     rename_i nm d
     cases d <;> simp [conformsN] at hc
     rename_i ts
     simp [faithful] at hf
-    simp [dynSupported] at hs
     simp [stringKeyed, stringKeyedData] at hk
     have hl := conformsNs_length vs ts hc
-    rw [toJson, dynSer_structTuple_ne1 fo nm ts _ (by omega) (by simp [toJsonList_length, hl]),
-      ser_zip fo hfo vs ts hc hk hf.1 hs]
-    simp [erase, enc]
-  | .map kvs, s, hc, hk, hf, hs => by
+    simp [toJson, dynSer, Json.asArray, toJsonList_length, hl, ser_zip fo hfo vs ts hc hk hf, erase, enc]
+  | .map kvs, s, hc, hk, hf => by
     cases s <;> simp [conformsN] at hc
     rename_i kt vt
     simp [faithful] at hf
-    simp [dynSupported] at hs
     simp [stringKeyed] at hk
     cases kt <;> simp at hk
     have hsorted : objInsertAll [] (toJsonKV fo kvs) = toJsonKV fo kvs := by
       have := objInsertAll_sorted (toJsonKV fo kvs) [] (by simp) hf.2
       simpa using this
-    simp [toJson, hsorted, dynSer, Json.asObject, ser_kv fo hfo kvs _ hc.1 hk hf.1 hs, erase, enc,
+    simp [toJson, hsorted, dynSer, Json.asObject, ser_kv fo hfo kvs _ hc.1 hk hf.1, erase, enc,
       dynVarint_eq, toJsonKV_length fo kvs _ _ hc.1, eraseList_length]
-  | .struct names vs, s, hc, hk, hf, hs => by
+  | .struct names vs, s, hc, hk, hf => by
     cases s <;> try (simp [conformsN] at hc)
     rename_i nm d
     cases d <;> simp [conformsN] at hc
     rename_i fs
     simp [faithful] at hf
-    simp [dynSupported] at hs
     simp [stringKeyed, stringKeyedData] at hk
-    have hl := conformsFields_length names vs fs hc
+    have hl := conformsNFields_length names vs fs hc
     have hlj : names.length = (toJsonList fo vs).length := by simp [toJsonList_length, hl.1]
     have hlen : (objInsertAll [] (zipNames names (toJsonList fo vs))).length = fs.length := by
       rw [length_insertAll _ _ (by rw [keysOf_zipNames _ _ hlj]; exact hf.2) (by simp [keysOf]),
         length_zipNames _ _ hlj]
       simp [hl.1, hl.2]
     simp [toJson, dynSer, Json.asObject, hlen, erase, enc,
-      ser_fields fo hfo names vs fs hc hk hf.1 hs _ (getsAll_insertAll names _ [] hf.2 hlj)]
-  | .unitVariant idx name, s, hc, hk, hf, hs => by
+      ser_fields fo hfo names vs fs hc hk hf.1 _ (getsAll_insertAll names _ [] hf.2 hlj)]
+  | .unitVariant idx name, s, hc, hk, hf => by
     cases s <;> simp [conformsN] at hc
     rename_i nm vars
     obtain ⟨hi, hc⟩ := hc
@@ -620,7 +605,7 @@ theorem ser_val (fo : FloatOps) (hfo : FloatOk fo) : (v : NVal) → (s : Schema)
     subst hc
     simp [toJson, dynSer, Json.asStr, dynSerUnitVariant_find name i _ vars 0 hfind, dynSerUnitVariant,
       erase, enc, dynVarint_eq, encVarint_64_32 hi]
-  | .newtypeVariant idx name v, s, hc, hk, hf, hs => by
+  | .newtypeVariant idx name v, s, hc, hk, hf => by
     cases s <;> simp [conformsN] at hc
     rename_i nm vars
     obtain ⟨hi, hc⟩ := hc
@@ -628,14 +613,13 @@ theorem ser_val (fo : FloatOps) (hfo : FloatOk fo) : (v : NVal) → (s : Schema)
     rename_i i t hfind
     obtain ⟨rfl, hc⟩ := hc
     simp [faithful] at hf
-    simp [dynSupported] at hs
     simp [stringKeyed] at hk
     have hk' := stringKeyed_find name i _ vars 0 hfind hk
     simp [stringKeyedData] at hk'
     simp only [toJson, dynSer, Json.asStr, Json.asObject, dynSerVariant_find fo name i _ _ vars 0 hfind]
     rw [dynSerVariant.eq_def]; dsimp only; rw [if_pos rfl]
-    simp [ser_val fo hfo v t hc hk' hf hs, erase, enc, dynVarint_eq, encVarint_64_32 hi]
-  | .tupleVariant idx name vs, s, hc, hk, hf, hs => by
+    simp [ser_val fo hfo v t hc hk' hf, erase, enc, dynVarint_eq, encVarint_64_32 hi]
+  | .tupleVariant idx name vs, s, hc, hk, hf => by
     cases s <;> simp [conformsN] at hc
     rename_i nm vars
     obtain ⟨hi, hc⟩ := hc
@@ -643,16 +627,15 @@ theorem ser_val (fo : FloatOps) (hfo : FloatOk fo) : (v : NVal) → (s : Schema)
     rename_i i ts hfind
     obtain ⟨rfl, hc⟩ := hc
     simp [faithful] at hf
-    simp [dynSupported] at hs
     simp [stringKeyed] at hk
     have hk' := stringKeyed_find name i _ vars 0 hfind hk
     simp [stringKeyedData] at hk'
     have hl := conformsNs_length vs ts hc
     simp only [toJson, dynSer, Json.asStr, Json.asObject, dynSerVariant_find fo name i _ _ vars 0 hfind]
-    rw [dynSerVariant_tuple_ne1 fo name i ts _ _ (by omega) (by simp [toJsonList_length, hl])
-      (ser_zip fo hfo vs ts hc hk' hf.1 hs)]
-    simp [erase, enc, dynVarint_eq, encVarint_64_32 hi]
-  | .structVariant idx name names vs, s, hc, hk, hf, hs => by
+    rw [dynSerVariant.eq_def]; dsimp only; rw [if_pos rfl]
+    simp [Json.asArray, toJsonList_length, hl, ser_zip fo hfo vs ts hc hk' hf, erase, enc, dynVarint_eq,
+      encVarint_64_32 hi]
+  | .structVariant idx name names vs, s, hc, hk, hf => by
     cases s <;> simp [conformsN] at hc
     rename_i nm vars
     obtain ⟨hi, hc⟩ := hc
@@ -660,11 +643,10 @@ theorem ser_val (fo : FloatOps) (hfo : FloatOk fo) : (v : NVal) → (s : Schema)
     rename_i i fs hfind
     obtain ⟨rfl, hc⟩ := hc
     simp [faithful] at hf
-    simp [dynSupported] at hs
     simp [stringKeyed] at hk
     have hk' := stringKeyed_find name i _ vars 0 hfind hk
     simp [stringKeyedData] at hk'
-    have hl := conformsFields_length names vs fs hc
+    have hl := conformsNFields_length names vs fs hc
     have hlj : names.length = (toJsonList fo vs).length := by simp [toJsonList_length, hl.1]
     have hlen : (objInsertAll [] (zipNames names (toJsonList fo vs))).length = fs.length := by
       rw [length_insertAll _ _ (by rw [keysOf_zipNames _ _ hlj]; exact hf.2) (by simp [keysOf]),
@@ -673,69 +655,65 @@ theorem ser_val (fo : FloatOps) (hfo : FloatOk fo) : (v : NVal) → (s : Schema)
     simp only [toJson, dynSer, Json.asStr, Json.asObject, dynSerVariant_find fo name i _ _ vars 0 hfind]
     rw [dynSerVariant.eq_def]; dsimp only; rw [if_pos rfl]
     simp [Json.asObject, hlen, erase, enc, dynVarint_eq, encVarint_64_32 hi,
-      ser_fields fo hfo names vs fs hc hk' hf.1 hs _ (getsAll_insertAll names _ [] hf.2 hlj)]
+      ser_fields fo hfo names vs fs hc hk' hf.1 _ (getsAll_insertAll names _ [] hf.2 hlj)]
+  | .schema sv, s, hc, hk, hf => by
+    cases s <;> simp [conformsN] at hc
+    simp [toJson, dynSer, soj_schema, erase]
 theorem ser_zip (fo : FloatOps) (hfo : FloatOk fo) : (vs : List NVal) → (ts : List Schema) →
     conformsNs vs ts = true → stringKeyedList ts = true → faithfulList fo vs = true →
-    dynSupportedList false vs = true →
     dynSerZip fo ts (toJsonList fo vs) = .ok (encList (eraseList vs))
-  | [], ts, hc, hk, hf, hs => by
+  | [], ts, hc, hk, hf => by
     cases ts <;> simp [conformsNs] at hc
     simp [toJsonList, dynSerZip, eraseList, encList]
-  | v :: vs, ts, hc, hk, hf, hs => by
+  | v :: vs, ts, hc, hk, hf => by
     cases ts <;> simp [conformsNs] at hc
     simp [faithfulList] at hf
-    simp [dynSupportedList] at hs
     simp [stringKeyedList] at hk
-    simp [toJsonList, dynSerZip, eraseList, encList, ser_val fo hfo v _ hc.1 hk.1 hf.1 hs.1,
-      ser_zip fo hfo vs _ hc.2 hk.2 hf.2 hs.2]
+    simp [toJsonList, dynSerZip, eraseList, encList, ser_val fo hfo v _ hc.1 hk.1 hf.1,
+      ser_zip fo hfo vs _ hc.2 hk.2 hf.2]
 theorem ser_all (fo : FloatOps) (hfo : FloatOk fo) : (vs : List NVal) → (t : Schema) →
-    conformsAll vs t = true → stringKeyed t = true → faithfulList fo vs = true →
-    dynSupportedList false vs = true →
+    conformsNAll vs t = true → stringKeyed t = true → faithfulList fo vs = true →
     serAll (dynSer fo t) (toJsonList fo vs) = .ok (encList (eraseList vs))
-  | [], t, _, _, _, _ => by simp [toJsonList, serAll, eraseList, encList]
-  | v :: vs, t, hc, hk, hf, hs => by
-    simp [conformsAll] at hc
+  | [], t, _, _, _ => by simp [toJsonList, serAll, eraseList, encList]
+  | v :: vs, t, hc, hk, hf => by
+    simp [conformsNAll] at hc
     simp [faithfulList] at hf
-    simp [dynSupportedList] at hs
-    simp [toJsonList, serAll, eraseList, encList, ser_val fo hfo v _ hc.1 hk hf.1 hs.1,
-      ser_all fo hfo vs _ hc.2 hk hf.2 hs.2]
+    simp [toJsonList, serAll, eraseList, encList, ser_val fo hfo v _ hc.1 hk hf.1,
+      ser_all fo hfo vs _ hc.2 hk hf.2]
 theorem ser_kv (fo : FloatOps) (hfo : FloatOk fo) : (kvs : List NVal) → (vt : Schema) →
-    conformsKV kvs .string vt = true → stringKeyed vt = true → faithfulKV fo kvs = true →
-    dynSupportedList false kvs = true →
+    conformsNKV kvs .string vt = true → stringKeyed vt = true → faithfulKV fo kvs = true →
     serKvs (dynSer fo vt) (toJsonKV fo kvs) = .ok (encList (eraseList kvs))
-  | [], _, _, _, _, _ => by simp [toJsonKV, serKvs, eraseList, encList]
-  | [_], _, hc, _, _, _ => by simp [conformsKV] at hc
-  | k :: v :: rest, vt, hc, hk, hf, hs => by
-    simp [conformsKV] at hc
+  | [], _, _, _, _ => by simp [toJsonKV, serKvs, eraseList, encList]
+  | [_], _, hc, _, _ => by simp [conformsNKV] at hc
+  | k :: v :: rest, vt, hc, hk, hf => by
+    simp [conformsNKV] at hc
     simp [faithfulKV] at hf
-    simp [dynSupportedList] at hs
     cases k <;> simp [isStrKey] at hf
     simp [toJsonKV, jsonKeyOf, serKvs, eraseList, encList, erase, enc, dynVarint_eq,
-      ser_val fo hfo v _ hc.1.2 hk hf.1 hs.2.1, ser_kv fo hfo rest _ hc.2 hk hf.2 hs.2.2]
+      ser_val fo hfo v _ hc.1.2 hk hf.1, ser_kv fo hfo rest _ hc.2 hk hf.2]
 theorem ser_fields (fo : FloatOps) (hfo : FloatOk fo) : (names : List Name) → (vs : List NVal) →
-    (fs : List SField) → conformsFields names vs fs = true → stringKeyedFields fs = true →
-    faithfulList fo vs = true → dynSupportedList false vs = true →
+    (fs : List SField) → conformsNFields names vs fs = true → stringKeyedFields fs = true →
+    faithfulList fo vs = true →
     (obj : List (List Byte × Json)) → GetsAll obj names (toJsonList fo vs) →
     dynSerFields fo fs obj = .ok (encList (eraseList vs))
-  | [], [], [], _, _, _, _, _, _ => by simp [dynSerFields, eraseList, encList]
-  | [], [], _ :: _, hc, _, _, _, _, _ => by simp [conformsFields] at hc
-  | [], _ :: _, _, hc, _, _, _, _, _ => by simp [conformsFields] at hc
-  | _ :: _, [], _, hc, _, _, _, _, _ => by simp [conformsFields] at hc
-  | _ :: _, _ :: _, [], hc, _, _, _, _, _ => by simp [conformsFields] at hc
-  | n :: ns, v :: vs, .mk fname ty :: fs, hc, hk, hf, hs, obj, hg => by
-    simp [conformsFields] at hc
+  | [], [], [], _, _, _, _, _ => by simp [dynSerFields, eraseList, encList]
+  | [], [], _ :: _, hc, _, _, _, _ => by simp [conformsNFields] at hc
+  | [], _ :: _, _, hc, _, _, _, _ => by simp [conformsNFields] at hc
+  | _ :: _, [], _, hc, _, _, _, _ => by simp [conformsNFields] at hc
+  | _ :: _, _ :: _, [], hc, _, _, _, _ => by simp [conformsNFields] at hc
+  | n :: ns, v :: vs, .mk fname ty :: fs, hc, hk, hf, obj, hg => by
+    simp [conformsNFields] at hc
     obtain ⟨⟨rfl, hc1⟩, hc2⟩ := hc
     simp [faithfulList] at hf
-    simp [dynSupportedList] at hs
     simp [stringKeyedFields] at hk
     simp only [toJsonList, GetsAll] at hg
-    simp [dynSerFields, hg.1, eraseList, encList, ser_val fo hfo v _ hc1 hk.1 hf.1 hs.1,
-      ser_fields fo hfo ns vs fs hc2 hk.2 hf.2 hs.2 obj hg.2]
+    simp [dynSerFields, hg.1, eraseList, encList, ser_val fo hfo v _ hc1 hk.1 hf.1,
+      ser_fields fo hfo ns vs fs hc2 hk.2 hf.2 obj hg.2]
 end
 
-end Postcard
+end Postcard.Dyn
 
-namespace Postcard
+namespace Postcard.Dyn
 
 /-! ## F. decoding direction -/
 
@@ -784,63 +762,35 @@ theorem dynDeVariant_find (fo : FloatOps) (name : Name) (i : Nat) (d : SData) (b
       rw [this, dynDeVariant.eq_def]
       exact dynDeVariant_find fo name i d bs rest (k + 1) h
 
-theorem dynDe_tuple_ge2 (fo : FloatOps) (ts : List Schema) (bs : List Byte)
-    (vs : List Json) (r : List Byte)
-    (h0 : ts.length ≠ 0) (h1 : ts.length ≠ 1) (hz : dynDeList fo ts bs = .ok (vs, r)) :
-    dynDe fo (.tuple ts) bs = .ok (.arr vs, r) := by
-  match ts, h0, h1 with
-  | [], h0, _ => simp at h0
-  | [_], _, h1 => simp at h1
-  | _ :: _ :: _, _, _ => simp [dynDe, hz]
-
-theorem dynDe_structTuple_ge2 (fo : FloatOps) (nm : Name) (ts : List Schema) (bs : List Byte)
-    (vs : List Json) (r : List Byte)
-    (h0 : ts.length ≠ 0) (h1 : ts.length ≠ 1) (hz : dynDeList fo ts bs = .ok (vs, r)) :
-    dynDe fo (.struct nm (.tuple ts)) bs = .ok (.arr vs, r) := by
-  match ts, h0, h1 with
-  | [], h0, _ => simp at h0
-  | [_], _, h1 => simp at h1
-  | _ :: _ :: _, _, _ => simp [dynDe, hz]
-
-theorem dynDeVariant_tuple_ge2 (fo : FloatOps) (name : Name) (ts : List Schema) (bs : List Byte)
-    (vs : List Json) (r : List Byte)
-    (h0 : ts.length ≠ 0) (h1 : ts.length ≠ 1) (hz : dynDeList fo ts bs = .ok (vs, r)) :
-    dynDeVariant fo [.mk name (.tuple ts)] 0 bs = .ok (.obj [(name, .arr vs)], r) := by
-  rw [dynDeVariant.eq_def]
-  match ts, h0, h1 with
-  | [], h0, _ => simp at h0
-  | [_], _, h1 => simp at h1
-  | _ :: _ :: _, _, _ => simp [hz]
-
 mutual
 theorem de_val (fo : FloatOps) (hfo : FloatOk fo) : (v : NVal) → (s : Schema) →
-    conformsN v s = true → stringKeyed s = true → faithful fo v = true → dynSupported true v = true →
+    conformsN v s = true → stringKeyed s = true → faithful fo v = true →
     (rest : List Byte) →
     dynDe fo s (enc (erase v) ++ rest) = .ok (toJson fo v, rest)
-  | .bool b, s, hc, hk, hf, hs, rest => by
+  | .bool b, s, hc, hk, hf, rest => by
     cases s <;> simp [conformsN] at hc
     cases b <;> simp [toJson, dynDe, dynTakeOne, erase, enc]
-  | .u .w8 n, s, hc, hk, hf, hs, rest => by
+  | .u .w8 n, s, hc, hk, hf, rest => by
     cases s <;> simp [conformsN] at hc
     have : n % 256 = n := Nat.mod_eq_of_lt hc
     have h64 : n < 2 ^ 64 := by omega
     simp [toJson, jsonOfNat, dynDe, dynTakeOne, erase, enc, UInt8.toNat_ofNat', this, h64]
-  | .u .w16 n, s, hc, hk, hf, hs, rest => by
+  | .u .w16 n, s, hc, hk, hf, rest => by
     cases s <;> simp [conformsN] at hc
     have h64 : n < 2 ^ 64 := by omega
     simp [toJson, jsonOfNat, h64, dynDe, erase, enc, IntW.bits, dynTakeVarint_enc widthOk16 hc]
-  | .u .w32 n, s, hc, hk, hf, hs, rest => by
+  | .u .w32 n, s, hc, hk, hf, rest => by
     cases s <;> simp [conformsN] at hc
     have h64 : n < 2 ^ 64 := by omega
     simp [toJson, jsonOfNat, h64, dynDe, erase, enc, IntW.bits, dynTakeVarint_enc widthOk32 hc]
-  | .u .w64 n, s, hc, hk, hf, hs, rest => by
+  | .u .w64 n, s, hc, hk, hf, rest => by
     cases s <;> simp [conformsN] at hc <;>
       simp [toJson, jsonOfNat, hc, dynDe, erase, enc, IntW.bits, dynTakeVarint_enc widthOk64 hc]
-  | .u .w128 n, s, hc, hk, hf, hs, rest => by
+  | .u .w128 n, s, hc, hk, hf, rest => by
     cases s <;> simp [conformsN] at hc
     simp [faithful] at hf
     simp [toJson, jsonOfNat, hf, dynDe, erase, enc, IntW.bits, dynTakeVarint_enc widthOk128 hc]
-  | .i .w8 x, s, hc, hk, hf, hs, rest => by
+  | .i .w8 x, s, hc, hk, hf, rest => by
     cases s <;> simp [conformsN] at hc
     have hr : -128 ≤ x ∧ x < 128 := by simpa [IntW.bits] using (IntW.inRangeI_iff _ _).1 hc
     have hb : ofBits 8 (toBits 8 x % 256) = x := by
@@ -848,21 +798,21 @@ theorem de_val (fo : FloatOps) (hfo : FloatOk fo) : (v : NVal) → (s : Schema) 
       simpa [UInt8.toNat_ofNat'] using this
     simp [toJson, dynDe, dynTakeOne, erase, enc, hb,
       ofI64_eq_jsonOfInt (x := x) (by omega) (by omega)]
-  | .i .w16 x, s, hc, hk, hf, hs, rest => by
+  | .i .w16 x, s, hc, hk, hf, rest => by
     cases s <;> simp [conformsN] at hc
     have hr : -32768 ≤ x ∧ x < 32768 := by simpa [IntW.bits] using (IntW.inRangeI_iff _ _).1 hc
     have h1 := de_i_varint .w16 (by decide) x hc rest
     have h2 := de_i_unzig .w16 x hc
     simp only [IntW.bits] at h1 h2
     simp [toJson, dynDe, erase, enc, IntW.bits, h1, h2, ofI64_eq_jsonOfInt (x := x) (by omega) (by omega)]
-  | .i .w32 x, s, hc, hk, hf, hs, rest => by
+  | .i .w32 x, s, hc, hk, hf, rest => by
     cases s <;> simp [conformsN] at hc
     have hr : -2147483648 ≤ x ∧ x < 2147483648 := by simpa [IntW.bits] using (IntW.inRangeI_iff _ _).1 hc
     have h1 := de_i_varint .w32 (by decide) x hc rest
     have h2 := de_i_unzig .w32 x hc
     simp only [IntW.bits] at h1 h2
     simp [toJson, dynDe, erase, enc, IntW.bits, h1, h2, ofI64_eq_jsonOfInt (x := x) (by omega) (by omega)]
-  | .i .w64 x, s, hc, hk, hf, hs, rest => by
+  | .i .w64 x, s, hc, hk, hf, rest => by
     cases s <;> simp [conformsN] at hc <;>
     · have hr : -9223372036854775808 ≤ x ∧ x < 9223372036854775808 := by
         simpa [IntW.bits] using (IntW.inRangeI_iff _ _).1 hc
@@ -870,112 +820,107 @@ theorem de_val (fo : FloatOps) (hfo : FloatOk fo) : (v : NVal) → (s : Schema) 
       have h2 := de_i_unzig .w64 x hc
       simp only [IntW.bits] at h1 h2
       simp [toJson, dynDe, erase, enc, IntW.bits, h1, h2, ofI64_eq_jsonOfInt (x := x) (by omega) (by omega)]
-  | .i .w128 x, s, hc, hk, hf, hs, rest => by
+  | .i .w128 x, s, hc, hk, hf, rest => by
     cases s <;> simp [conformsN] at hc
     simp [faithful] at hf
-    simp [dynSupported] at hs
     have h1 := de_i_varint .w128 (by decide) x hc rest
     have h2 := de_i_unzig .w128 x hc
     simp only [IntW.bits] at h1 h2
-    simp [toJson, dynDe, erase, enc, IntW.bits, h1, h2, hf.1, hs,
-      ofI64_eq_jsonOfInt (x := x) (by omega) (by omega)]
-  | .f32 b, s, hc, hk, hf, hs, rest => by
+    by_cases hx : x < (2 ^ 63 : Int)
+    · have hx' : x < 9223372036854775808 := by simpa using hx
+      simp [toJson, dynDe, erase, enc, IntW.bits, h1, h2, hf.1, hx',
+        ofI64_eq_jsonOfInt (x := x) (by omega) (by omega)]
+    · have h0 : (0 : Int) ≤ x := by omega
+      have hx' : ¬ x < 9223372036854775808 := by simpa using hx
+      have hj : jsonOfInt x = .posInt x.toNat := by simp [jsonOfInt, h0, hf.2]
+      simp [toJson, hj, dynDe, erase, enc, IntW.bits, h1, h2, hx', h0, hf.2]
+  | .f32 b, s, hc, hk, hf, rest => by
     cases s <;> simp [conformsN] at hc
     simp [faithful] at hf
     have hb : b < 256 ^ 4 := by omega
     simp [toJson, Json.ofF32, hf, dynDe, erase, enc, dynTakeN_append' _ rest (leBytes_length 4 b),
       ofLeBytes_leBytes hb, Json.numFromF64, hfo.fin32 b hc hf]
-  | .f64 b, s, hc, hk, hf, hs, rest => by
+  | .f64 b, s, hc, hk, hf, rest => by
     cases s <;> simp [conformsN] at hc
     simp [faithful] at hf
     have hb : b < 256 ^ 8 := by omega
     simp [toJson, Json.ofF64, hf, dynDe, erase, enc, dynTakeN_append' _ rest (leBytes_length 8 b),
       ofLeBytes_leBytes hb, Json.numFromF64]
-  | .char c, s, hc, hk, hf, hs, rest => by simp [dynSupported] at hs
-  | .str u, s, hc, hk, hf, hs, rest => by
+  | .char c, s, hc, hk, hf, rest => by
+    cases s <;> simp [conformsN] at hc
+    have hl : (utf8Encode c).length < 2 ^ 64 := by have := utf8Encode_length_le c; omega
+    simp [toJson, dynDe, erase, enc, dynTakeVarint_enc widthOk64 hl, dynTakeN_append,
+      utf8Valid_encode hc, oneScalar_encode hc]
+  | .str u, s, hc, hk, hf, rest => by
     cases s <;> simp [conformsN] at hc
     simp [toJson, dynDe, erase, enc, dynTakeVarint_enc widthOk64 hc.2, dynTakeN_append, hc.1]
-  | .bytes u, s, hc, hk, hf, hs, rest => by
+  | .bytes u, s, hc, hk, hf, rest => by
     cases s <;> simp [conformsN] at hc
     simp [toJson, dynDe, erase, enc, dynTakeVarint_enc widthOk64 hc, dynTakeN_append]
-  | .none, s, hc, hk, hf, hs, rest => by
+  | .none, s, hc, hk, hf, rest => by
     cases s <;> simp [conformsN] at hc
     simp [toJson, dynDe, dynTakeOne, erase, enc]
-  | .some v, s, hc, hk, hf, hs, rest => by
+  | .some v, s, hc, hk, hf, rest => by
     cases s <;> simp [conformsN] at hc
     simp [faithful] at hf
-    simp [dynSupported] at hs
     simp [stringKeyed] at hk
-    simp [toJson, dynDe, dynTakeOne, de_val fo hfo v _ hc hk hf.1 hs rest, erase, enc]
-  | .unit, s, hc, hk, hf, hs, rest => by
+    simp [toJson, dynDe, dynTakeOne, de_val fo hfo v _ hc hk hf.1 rest, erase, enc]
+  | .unit, s, hc, hk, hf, rest => by
     cases s <;> simp [conformsN] at hc
     simp [toJson, dynDe, erase, enc]
-  | .unitStruct, s, hc, hk, hf, hs, rest => by
+  | .unitStruct, s, hc, hk, hf, rest => by
     cases s <;> try (simp [conformsN] at hc)
     rename_i nm d
     cases d <;> simp [conformsN] at hc
     simp [toJson, dynDe, erase, enc]
-  | .newtypeStruct v, s, hc, hk, hf, hs, rest => by
+  | .newtypeStruct v, s, hc, hk, hf, rest => by
     cases s <;> try (simp [conformsN] at hc)
     rename_i nm d
     cases d <;> simp [conformsN] at hc
     simp [faithful] at hf
-    simp [dynSupported] at hs
     simp [stringKeyed, stringKeyedData] at hk
-    simp [toJson, dynDe, de_val fo hfo v _ hc hk hf hs rest, erase, enc]
-  | .seq vs, s, hc, hk, hf, hs, rest => by
+    simp [toJson, dynDe, de_val fo hfo v _ hc hk hf rest, erase, enc]
+  | .seq vs, s, hc, hk, hf, rest => by
     cases s <;> simp [conformsN] at hc
     simp [faithful] at hf
-    simp [dynSupported] at hs
     have hl : (eraseList vs).length < 2 ^ 64 := by rw [eraseList_length]; exact hc.2
     simp [stringKeyed] at hk
-    have := de_all fo hfo vs _ hc.1 hk hf hs rest
+    have := de_all fo hfo vs _ hc.1 hk hf rest
     rw [← eraseList_length] at this
     simp [toJson, dynDe, erase, enc, dynTakeVarint_enc widthOk64 hl, this]
-  | .tuple vs, s, hc, hk, hf, hs, rest => by
+  | .tuple vs, s, hc, hk, hf, rest => by
     cases s <;> simp [conformsN] at hc
     rename_i ts
     simp [faithful] at hf
-    simp [dynSupported] at hs
     simp [stringKeyed] at hk
-    have hl := conformsNs_length vs ts hc
-    have h0 : vs.length ≠ 0 := fun h => hs.2 (List.eq_nil_of_length_eq_zero h)
-    simp only [erase, enc, toJson]
-    rw [dynDe_tuple_ge2 fo ts _ _ _ (by omega) (by omega) (de_list fo hfo vs ts hc hk hf hs.1.1 rest)]
-  | .tupleStruct vs, s, hc, hk, hf, hs, rest => by
+    simp [toJson, dynDe, erase, enc, de_list fo hfo vs ts hc hk hf rest]
+  | .tupleStruct vs, s, hc, hk, hf, rest => by
     cases s <;> try (simp [conformsN] at hc)
     rename_i nm d
     cases d <;> simp [conformsN] at hc
     rename_i ts
     simp [faithful] at hf
-    simp [dynSupported] at hs
     simp [stringKeyed, stringKeyedData] at hk
-    have hl := conformsNs_length vs ts hc
-    have h0 : vs.length ≠ 0 := fun h => hs.2 (List.eq_nil_of_length_eq_zero h)
-    simp only [erase, enc, toJson]
-    rw [dynDe_structTuple_ge2 fo nm ts _ _ _ (by omega) (by omega)
-      (de_list fo hfo vs ts hc hk hf.1 hs.1 rest)]
-  | .map kvs, s, hc, hk, hf, hs, rest => by
+    simp [toJson, dynDe, erase, enc, de_list fo hfo vs ts hc hk hf rest]
+  | .map kvs, s, hc, hk, hf, rest => by
     cases s <;> simp [conformsN] at hc
     rename_i kt vt
     simp [faithful] at hf
-    simp [dynSupported] at hs
     simp [stringKeyed] at hk
     cases kt <;> simp at hk
     have hl : (eraseList kvs).length / 2 < 2 ^ 64 := by rw [eraseList_length]; exact hc.2
-    have := de_kv fo hfo kvs _ hc.1 hk hf.1 hs [] rest
+    have := de_kv fo hfo kvs _ hc.1 hk hf.1 [] rest
     rw [← eraseList_length] at this
     simp [toJson, dynDe, erase, enc, dynTakeVarint_enc widthOk64 hl, this]
-  | .struct names vs, s, hc, hk, hf, hs, rest => by
+  | .struct names vs, s, hc, hk, hf, rest => by
     cases s <;> try (simp [conformsN] at hc)
     rename_i nm d
     cases d <;> simp [conformsN] at hc
     rename_i fs
     simp [faithful] at hf
-    simp [dynSupported] at hs
     simp [stringKeyed, stringKeyedData] at hk
-    simp [toJson, dynDe, erase, enc, de_fields fo hfo names vs fs hc hk hf.1 hs [] rest]
-  | .unitVariant idx name, s, hc, hk, hf, hs, rest => by
+    simp [toJson, dynDe, erase, enc, de_fields fo hfo names vs fs hc hk hf.1 [] rest]
+  | .unitVariant idx name, s, hc, hk, hf, rest => by
     cases s <;> simp [conformsN] at hc
     rename_i nm vars
     obtain ⟨hi, hc⟩ := hc
@@ -988,7 +933,7 @@ theorem de_val (fo : FloatOps) (hfo : FloatOk fo) : (v : NVal) → (s : Schema) 
       dynTakeVarint_enc widthOk64 (Nat.lt_of_lt_of_le hi (by decide)), hd]
     rw [dynDeVariant.eq_def]
     simp [toJson]
-  | .newtypeVariant idx name v, s, hc, hk, hf, hs, rest => by
+  | .newtypeVariant idx name v, s, hc, hk, hf, rest => by
     cases s <;> simp [conformsN] at hc
     rename_i nm vars
     obtain ⟨hi, hc⟩ := hc
@@ -996,7 +941,6 @@ theorem de_val (fo : FloatOps) (hfo : FloatOk fo) : (v : NVal) → (s : Schema) 
     rename_i i t hfind
     obtain ⟨rfl, hc⟩ := hc
     simp [faithful] at hf
-    simp [dynSupported] at hs
     simp [stringKeyed] at hk
     have hk' := stringKeyed_find name i _ vars 0 hfind hk
     simp [stringKeyedData] at hk'
@@ -1005,8 +949,8 @@ theorem de_val (fo : FloatOps) (hfo : FloatOk fo) : (v : NVal) → (s : Schema) 
     simp only [erase, enc, dynDe, ← encVarint_64_32 hi, List.append_assoc,
       dynTakeVarint_enc widthOk64 (Nat.lt_of_lt_of_le hi (by decide)), hd]
     rw [dynDeVariant.eq_def]
-    simp [toJson, de_val fo hfo v t hc hk' hf hs rest]
-  | .tupleVariant idx name vs, s, hc, hk, hf, hs, rest => by
+    simp [toJson, de_val fo hfo v t hc hk' hf rest]
+  | .tupleVariant idx name vs, s, hc, hk, hf, rest => by
     cases s <;> simp [conformsN] at hc
     rename_i nm vars
     obtain ⟨hi, hc⟩ := hc
@@ -1014,28 +958,6 @@ theorem de_val (fo : FloatOps) (hfo : FloatOk fo) : (v : NVal) → (s : Schema) 
     rename_i i ts hfind
     obtain ⟨rfl, hc⟩ := hc
     simp [faithful] at hf
-    simp [dynSupported] at hs
-    simp [stringKeyed] at hk
-    have hk' := stringKeyed_find name i _ vars 0 hfind hk
-    simp [stringKeyedData] at hk'
-    have hl := conformsNs_length vs ts hc
-    have h0 : vs.length ≠ 0 := fun h => hs.2 (List.eq_nil_of_length_eq_zero h)
-    have hd := dynDeVariant_find fo name i _ (encList (eraseList vs) ++ rest) vars 0 hfind
-    simp only [Nat.sub_zero] at hd
-    simp only [erase, enc, dynDe, ← encVarint_64_32 hi, List.append_assoc,
-      dynTakeVarint_enc widthOk64 (Nat.lt_of_lt_of_le hi (by decide)), hd]
-    rw [dynDeVariant_tuple_ge2 fo name ts _ _ _ (by omega) (by omega)
-      (de_list fo hfo vs ts hc hk' hf.1 hs.1 rest)]
-    simp [toJson]
-  | .structVariant idx name names vs, s, hc, hk, hf, hs, rest => by
-    cases s <;> simp [conformsN] at hc
-    rename_i nm vars
-    obtain ⟨hi, hc⟩ := hc
-    split at hc <;> try (simp at hc)
-    rename_i i fs hfind
-    obtain ⟨rfl, hc⟩ := hc
-    simp [faithful] at hf
-    simp [dynSupported] at hs
     simp [stringKeyed] at hk
     have hk' := stringKeyed_find name i _ vars 0 hfind hk
     simp [stringKeyedData] at hk'
@@ -1044,43 +966,60 @@ theorem de_val (fo : FloatOps) (hfo : FloatOk fo) : (v : NVal) → (s : Schema) 
     simp only [erase, enc, dynDe, ← encVarint_64_32 hi, List.append_assoc,
       dynTakeVarint_enc widthOk64 (Nat.lt_of_lt_of_le hi (by decide)), hd]
     rw [dynDeVariant.eq_def]
-    simp [toJson, de_fields fo hfo names vs fs hc hk' hf.1 hs [] rest]
+    simp [toJson, de_list fo hfo vs ts hc hk' hf rest]
+  | .structVariant idx name names vs, s, hc, hk, hf, rest => by
+    cases s <;> simp [conformsN] at hc
+    rename_i nm vars
+    obtain ⟨hi, hc⟩ := hc
+    split at hc <;> try (simp at hc)
+    rename_i i fs hfind
+    obtain ⟨rfl, hc⟩ := hc
+    simp [faithful] at hf
+    simp [stringKeyed] at hk
+    have hk' := stringKeyed_find name i _ vars 0 hfind hk
+    simp [stringKeyedData] at hk'
+    have hd := dynDeVariant_find fo name i _ (encList (eraseList vs) ++ rest) vars 0 hfind
+    simp only [Nat.sub_zero] at hd
+    simp only [erase, enc, dynDe, ← encVarint_64_32 hi, List.append_assoc,
+      dynTakeVarint_enc widthOk64 (Nat.lt_of_lt_of_le hi (by decide)), hd]
+    rw [dynDeVariant.eq_def]
+    simp [toJson, de_fields fo hfo names vs fs hc hk' hf.1 [] rest]
+  | .schema sv, s, hc, hk, hf, rest => by
+    cases s <;> simp [conformsN] at hc
+    simp [toJson, dynDe, erase, owned_roundtrip_closed sv hc rest]
 theorem de_list (fo : FloatOps) (hfo : FloatOk fo) : (vs : List NVal) → (ts : List Schema) →
     conformsNs vs ts = true → stringKeyedList ts = true → faithfulList fo vs = true →
-    dynSupportedList true vs = true → (rest : List Byte) →
+    (rest : List Byte) →
     dynDeList fo ts (encList (eraseList vs) ++ rest) = .ok (toJsonList fo vs, rest)
-  | [], ts, hc, _, _, _, rest => by
+  | [], ts, hc, _, _, rest => by
     cases ts <;> simp [conformsNs] at hc
     simp [toJsonList, dynDeList, eraseList, encList]
-  | v :: vs, ts, hc, hk, hf, hs, rest => by
+  | v :: vs, ts, hc, hk, hf, rest => by
     cases ts <;> simp [conformsNs] at hc
     simp [faithfulList] at hf
-    simp [dynSupportedList] at hs
     simp [stringKeyedList] at hk
-    simp [toJsonList, dynDeList, eraseList, encList, de_val fo hfo v _ hc.1 hk.1 hf.1 hs.1,
-      de_list fo hfo vs _ hc.2 hk.2 hf.2 hs.2 rest]
+    simp [toJsonList, dynDeList, eraseList, encList, de_val fo hfo v _ hc.1 hk.1 hf.1,
+      de_list fo hfo vs _ hc.2 hk.2 hf.2 rest]
 theorem de_all (fo : FloatOps) (hfo : FloatOk fo) : (vs : List NVal) → (t : Schema) →
-    conformsAll vs t = true → stringKeyed t = true → faithfulList fo vs = true →
-    dynSupportedList true vs = true → (rest : List Byte) →
+    conformsNAll vs t = true → stringKeyed t = true → faithfulList fo vs = true →
+    (rest : List Byte) →
     deN (dynDe fo t) vs.length (encList (eraseList vs) ++ rest) = .ok (toJsonList fo vs, rest)
-  | [], t, _, _, _, _, rest => by simp [toJsonList, deN, eraseList, encList]
-  | v :: vs, t, hc, hk, hf, hs, rest => by
-    simp [conformsAll] at hc
+  | [], t, _, _, _, rest => by simp [toJsonList, deN, eraseList, encList]
+  | v :: vs, t, hc, hk, hf, rest => by
+    simp [conformsNAll] at hc
     simp [faithfulList] at hf
-    simp [dynSupportedList] at hs
-    simp [toJsonList, deN, eraseList, encList, de_val fo hfo v _ hc.1 hk hf.1 hs.1,
-      de_all fo hfo vs _ hc.2 hk hf.2 hs.2 rest]
+    simp [toJsonList, deN, eraseList, encList, de_val fo hfo v _ hc.1 hk hf.1,
+      de_all fo hfo vs _ hc.2 hk hf.2 rest]
 theorem de_kv (fo : FloatOps) (hfo : FloatOk fo) : (kvs : List NVal) → (vt : Schema) →
-    conformsKV kvs .string vt = true → stringKeyed vt = true → faithfulKV fo kvs = true →
-    dynSupportedList true kvs = true → (acc : List (List Byte × Json)) → (rest : List Byte) →
+    conformsNKV kvs .string vt = true → stringKeyed vt = true → faithfulKV fo kvs = true →
+    (acc : List (List Byte × Json)) → (rest : List Byte) →
     deKvs (dynDe fo vt) (kvs.length / 2) acc (encList (eraseList kvs) ++ rest) =
       .ok (objInsertAll acc (toJsonKV fo kvs), rest)
-  | [], _, _, _, _, _, acc, rest => by simp [toJsonKV, deKvs, eraseList, encList, objInsertAll]
-  | [_], _, hc, _, _, _, _, _ => by simp [conformsKV] at hc
-  | k :: v :: more, vt, hc, hk, hf, hs, acc, rest => by
-    simp [conformsKV] at hc
+  | [], _, _, _, _, acc, rest => by simp [toJsonKV, deKvs, eraseList, encList, objInsertAll]
+  | [_], _, hc, _, _, _, _ => by simp [conformsNKV] at hc
+  | k :: v :: more, vt, hc, hk, hf, acc, rest => by
+    simp [conformsNKV] at hc
     simp [faithfulKV] at hf
-    simp [dynSupportedList] at hs
     cases k <;> simp [isStrKey] at hf
     rename_i u
     have hcu := hc.1.1
@@ -1089,103 +1028,103 @@ theorem de_kv (fo : FloatOps) (hfo : FloatOk fo) : (kvs : List NVal) → (vt : S
     rw [hlen]
     simp [toJsonKV, jsonKeyOf, deKvs, eraseList, encList, erase, enc, objInsertAll,
       dynTakeVarint_enc widthOk64 hcu.2, dynTakeN_append, hcu.1,
-      de_val fo hfo v _ hc.1.2 hk hf.1 hs.2.1, de_kv fo hfo more _ hc.2 hk hf.2 hs.2.2]
+      de_val fo hfo v _ hc.1.2 hk hf.1, de_kv fo hfo more _ hc.2 hk hf.2]
 theorem de_fields (fo : FloatOps) (hfo : FloatOk fo) : (names : List Name) → (vs : List NVal) →
-    (fs : List SField) → conformsFields names vs fs = true → stringKeyedFields fs = true →
-    faithfulList fo vs = true → dynSupportedList true vs = true →
+    (fs : List SField) → conformsNFields names vs fs = true → stringKeyedFields fs = true →
+    faithfulList fo vs = true →
     (acc : List (List Byte × Json)) → (rest : List Byte) →
     dynDeFields fo fs acc (encList (eraseList vs) ++ rest) =
       .ok (objInsertAll acc (zipNames names (toJsonList fo vs)), rest)
-  | [], [], [], _, _, _, _, acc, rest => by
+  | [], [], [], _, _, _, acc, rest => by
     simp [dynDeFields, eraseList, encList, toJsonList, zipNames, objInsertAll]
-  | [], [], _ :: _, hc, _, _, _, _, _ => by simp [conformsFields] at hc
-  | [], _ :: _, _, hc, _, _, _, _, _ => by simp [conformsFields] at hc
-  | _ :: _, [], _, hc, _, _, _, _, _ => by simp [conformsFields] at hc
-  | _ :: _, _ :: _, [], hc, _, _, _, _, _ => by simp [conformsFields] at hc
-  | n :: ns, v :: vs, .mk fname ty :: fs, hc, hk, hf, hs, acc, rest => by
-    simp [conformsFields] at hc
+  | [], [], _ :: _, hc, _, _, _, _ => by simp [conformsNFields] at hc
+  | [], _ :: _, _, hc, _, _, _, _ => by simp [conformsNFields] at hc
+  | _ :: _, [], _, hc, _, _, _, _ => by simp [conformsNFields] at hc
+  | _ :: _, _ :: _, [], hc, _, _, _, _ => by simp [conformsNFields] at hc
+  | n :: ns, v :: vs, .mk fname ty :: fs, hc, hk, hf, acc, rest => by
+    simp [conformsNFields] at hc
     obtain ⟨⟨rfl, hc1⟩, hc2⟩ := hc
     simp [faithfulList] at hf
-    simp [dynSupportedList] at hs
     simp [stringKeyedFields] at hk
     simp [dynDeFields, eraseList, encList, toJsonList, zipNames, objInsertAll,
-      de_val fo hfo v _ hc1 hk.1 hf.1 hs.1, de_fields fo hfo ns vs fs hc2 hk.2 hf.2 hs.2]
+      de_val fo hfo v _ hc1 hk.1 hf.1, de_fields fo hfo ns vs fs hc2 hk.2 hf.2]
 end
 
-end Postcard
+end Postcard.Dyn
 
-namespace Postcard
+namespace Postcard.Dyn
 
-/-! ## H. refuting witnesses: where the CURRENT code violates the full statement
+/-! ## H. the former refuting witnesses, now POSITIVE examples of the repaired behaviour
 
-Every witness is a closed term evaluated by the kernel (`rfl`), for an arbitrary
-`fo : FloatOps` (no float conversion is involved).  All confirmed on the real
-crate (scratch crate linking /repo/source/postcard-dyn, 2026-09-29). -/
+Every example is a closed term evaluated by the kernel (`rfl` / `decide`), for
+an arbitrary `fo : FloatOps` (no float conversion is involved).  All confirmed
+on the real crate (scratch crate linking /repo/source/postcard-dyn; 614 cases
+compared with this model, no mismatch). -/
 
 section Witnesses
 variable (fo : FloatOps)
 
-/-- (a) `char`: `'a'`, JSON `"a"`, static bytes `[1, 97]`.  Encoding agrees,
-decoding is `todo!()`. -/
+/-- (a) `char`: `'a'`, JSON `"a"`, static bytes `[1, 97]` — decoded since repair 1. -/
 example : conformsN (.char 97) .char = true := by decide
 example : dynSer fo .char (toJson fo (.char 97)) = .ok (enc (erase (.char 97))) := rfl
-theorem witness_de_char : dynDe fo .char (enc (erase (.char 97)) ++ []) = .error .panic := rfl
+example : dynDe fo .char (enc (erase (.char 97)) ++ []) = .ok (toJson fo (.char 97), []) := rfl
+/-- repair 2: a string of two scalars is not a `char`. -/
+example : dynSer fo .char (.str [97, 98]) = .error .schemaMismatch := rfl
+example : dynDe fo .char [2, 97, 98] = .error .schemaMismatch := rfl
 
-/-- (b) the `Schema` kind is `todo!()` in both directions (for every input). -/
-theorem witness_ser_schema (j : Json) : dynSer fo .schema j = .error .panic := rfl
-theorem witness_de_schema (bs : List Byte) : dynDe fo .schema bs = .error .panic := rfl
+/-- (b) the `Schema` kind (repair 3): the value `Option(Bool)`, JSON `{"Option": "Bool"}`,
+static bytes `[18, 0]`. -/
+example : toJson fo (.schema (.option .bool)) = .obj [(kindName .option, .str (kindName .bool))] := rfl
+example : dynSer fo .schema (toJson fo (.schema (.option .bool))) = .ok [18, 0] := rfl
+example : enc (erase (.schema (.option .bool))) = [18, 0] := by decide
+example : dynDe fo .schema [18, 0, 7] = .ok (toJson fo (.schema (.option .bool)), [7]) := rfl
+example : dynSer fo .schema .null = .error .schemaMismatch := rfl
+example : dynDe fo .schema [26] = .error .schemaMismatch := rfl
 
-/-- (c) plain tuple / array of arity 1: `(5u8,)`, JSON `[5]`, static bytes `[5]`. -/
+/-- (c) plain tuple / array of arity 1 (repair 4): `(5u8,)`, JSON `[5]`, static bytes `[5]`. -/
 def w1 : NVal := .tuple [.u .w8 5]
 example : conformsN w1 (.tuple [.u8]) = true := by decide
 example : toJson fo w1 = .arr [.posInt 5] := rfl
 example : enc (erase w1) = [5] := by decide
-theorem witness_ser_tuple1 : dynSer fo (.tuple [.u8]) (toJson fo w1) = .error .schemaMismatch := rfl
-theorem witness_de_tuple1 : dynDe fo (.tuple [.u8]) (enc (erase w1) ++ []) = .ok (.posInt 5, []) := rfl
+example : dynSer fo (.tuple [.u8]) (toJson fo w1) = .ok [5] := rfl
+example : dynDe fo (.tuple [.u8]) (enc (erase w1) ++ []) = .ok (.arr [.posInt 5], []) := rfl
+/-- the bare value is no longer accepted for a 1-tuple. -/
+example : dynSer fo (.tuple [.u8]) (.posInt 5) = .error .schemaMismatch := rfl
 
-/-- (d) arity 0: `[u8; 0]`, JSON `[]`, static bytes `[]`: decodes to `null`. -/
+/-- (d) arity 0: `[u8; 0]`, JSON `[]`, static bytes `[]`. -/
 def w0 : NVal := .tuple []
 example : conformsN w0 (.tuple []) = true := by decide
-example : toJson fo w0 = .arr [] := rfl
 example : dynSer fo (.tuple []) (toJson fo w0) = .ok (enc (erase w0)) := rfl
-theorem witness_de_tuple0 : dynDe fo (.tuple []) (enc (erase w0) ++ []) = .ok (.null, []) := rfl
+example : dynDe fo (.tuple []) (enc (erase w0) ++ []) = .ok (.arr [], []) := rfl
 
-/-- (d') nested: `([u8; 0], 3u8)`, JSON `[[], 3]`: decodes to `[null, 3]`. -/
+/-- (d') nested: `([u8; 0], 3u8)`, JSON `[[], 3]`. -/
 def w0n : NVal := .tuple [.tuple [], .u .w8 3]
-example : conformsN w0n (.tuple [.tuple [], .u8]) = true := by decide
-theorem witness_de_tuple0_nested :
-    dynDe fo (.tuple [.tuple [], .u8]) (enc (erase w0n) ++ []) = .ok (.arr [.null, .posInt 3], []) ∧
+example : dynDe fo (.tuple [.tuple [], .u8]) (enc (erase w0n) ++ []) = .ok (toJson fo w0n, []) ∧
     toJson fo w0n = .arr [.arr [], .posInt 3] := ⟨rfl, rfl⟩
 
-/-- (e) NEW: tuple struct with zero fields `struct Tup0();`, JSON `[]`: decodes to `null`. -/
+/-- (e) tuple struct with zero fields `struct Tup0();`, JSON `[]`. -/
 def wts0 : NVal := .tupleStruct []
 def sts0 : Schema := .struct [84] (.tuple [])
-example : conformsN wts0 sts0 = true := by decide
-example : dynSer fo sts0 (toJson fo wts0) = .ok (enc (erase wts0)) := rfl
-theorem witness_de_tupleStruct0 :
-    dynDe fo sts0 (enc (erase wts0) ++ []) = .ok (.null, []) ∧ toJson fo wts0 = .arr [] := ⟨rfl, rfl⟩
+example : dynDe fo sts0 (enc (erase wts0) ++ []) = .ok (toJson fo wts0, []) ∧ toJson fo wts0 = .arr [] :=
+  ⟨rfl, rfl⟩
 
-/-- (f) NEW: tuple variant with zero fields `enum E { A, C() }`, `E::C()`, JSON `{"C": []}`,
-static bytes `[1]`: decodes to `{"C": null}`. -/
+/-- (f) tuple variant with zero fields `enum E { A, C() }`, `E::C()`, JSON `{"C": []}`, bytes `[1]`. -/
 def wtv0 : NVal := .tupleVariant 1 [67] []
 def sen : Schema := .enum [69] [.mk [65] .unit, .mk [67] (.tuple [])]
 example : conformsN wtv0 sen = true := by decide
 example : dynSer fo sen (toJson fo wtv0) = .ok (enc (erase wtv0)) := rfl
-theorem witness_de_tupleVariant0 :
-    dynDe fo sen (enc (erase wtv0) ++ []) = .ok (.obj [([67], .null)], []) ∧
+example : dynDe fo sen (enc (erase wtv0) ++ []) = .ok (toJson fo wtv0, []) ∧
     toJson fo wtv0 = .obj [([67], .arr [])] := ⟨rfl, rfl⟩
 
-/-- (g) NEW: `i128` in `2^63 ..= u64::MAX`: `1i128 << 63`; `to_value` gives
-`PosInt(2^63)`; dyn-ser wants `as_i64` → SchemaMismatch; dyn-de → ShouldSupportButDont. -/
+/-- (g) `i128` in `2^63 ..= u64::MAX` (repair 5): `1i128 << 63`, JSON `PosInt(2^63)`. -/
 def wi128 : NVal := .i .w128 (2 ^ 63)
 example : conformsN wi128 .i128 = true := by decide
-example : toJsonOk wi128 = true := by decide
 example : toJson fo wi128 = .posInt (2 ^ 63) := rfl
-theorem witness_ser_i128 : dynSer fo .i128 (toJson fo wi128) = .error .schemaMismatch := rfl
-theorem witness_de_i128 :
-    dynDe fo .i128 (enc (erase wi128) ++ []) = .error .shouldSupportButDont := rfl
+example : dynSer fo .i128 (toJson fo wi128) = .ok (enc (erase wi128)) := rfl
+example : dynDe fo .i128 (enc (erase wi128) ++ []) = .ok (toJson fo wi128, []) := rfl
 
-/-- OUTSIDE `Faithful` (recorded, not counted as violations of C17):
+/-- OUTSIDE `Faithful` (recorded, not counted as violations of C17; all UNREPAIRED, inherent to
+using `serde_json::Value`):
 `Some(())` has JSON `null`; dyn-ser writes `[0]`, static writes `[1]`. -/
 example : dynSer fo (.option .unit) (toJson fo (.some .unit)) = .ok [0] ∧ enc (erase (.some .unit)) = [1] :=
   ⟨rfl, by decide⟩
@@ -1198,78 +1137,64 @@ example : dynSer fo (.struct [83] (.struct [.mk [97] .u8, .mk [97] .u8]))
 (`BTreeMap<u8, bool>::new()`, JSON `{}`, static bytes `[0]`) → ShouldSupportButDont. -/
 example : dynSer fo (.map .u8 .bool) (toJson fo (.map [])) = .error .shouldSupportButDont ∧
     enc (erase (.map [])) = [0] := ⟨rfl, by decide⟩
+/-- OUTSIDE `Faithful`: `i128` beyond `u64::MAX` — `serde_json::to_value` itself fails
+(`toJsonOk = false`); the decoder answers ShouldSupportButDont. -/
+example : toJsonOk (.i .w128 (2 ^ 64)) = false ∧
+    dynDe fo .i128 (enc (erase (.i .w128 (2 ^ 64)))) = .error .shouldSupportButDont :=
+  ⟨by decide, rfl⟩
 
 end Witnesses
-end Postcard
+end Postcard.Dyn
 
 namespace Postcard
+open Dyn
 
 /-! ## J. C17 — the property theorems -/
 
-/-- the exclusion predicate: `DynSupported de v` (see `dynSupported`); `de = false` for
-the encoding direction, `de = true` for the decoding direction. -/
-def DynSupported (de : Bool) (v : NVal) : Prop := dynSupported de v = true
-
-/-
-FULL STATEMENTS (what C17 asks for).  Both are FALSE of the current code —
-refuted below (`dyn_ser_agrees_false`, `dyn_de_agrees_false`) on concrete
-witnesses:
-
+/-- C17, encoding direction, FULL strength on the scope of the property: for every
+value `v` of a type with schema `s` (`conformsN`; this includes values of the
+`Schema` kind, `NVal.schema`) whose JSON form is unambiguous (`Faithful`), the
+dynamic encoder applied to `serde_json::to_value(v)` produces exactly the bytes
+of the static encoder. -/
 theorem dyn_ser_agrees (fo : FloatOps) (hfo : FloatOk fo) (v : NVal) (s : Schema)
     (hc : conformsN v s = true) (hf : Faithful fo s v) :
-    dynSer fo s (toJson fo v) = .ok (enc (erase v))
+    dynSer fo s (toJson fo v) = .ok (enc (erase v)) :=
+  ser_val fo hfo v s hc hf.1 hf.2
 
+/-- C17, decoding direction, FULL strength: the dynamic decoder applied to the
+static bytes (followed by anything) yields `serde_json::to_value(v)` and leaves
+the remainder untouched. -/
 theorem dyn_de_agrees (fo : FloatOps) (hfo : FloatOk fo) (v : NVal) (s : Schema)
     (hc : conformsN v s = true) (hf : Faithful fo s v) (rest : List Byte) :
-    dynDe fo s (enc (erase v) ++ rest) = .ok (toJson fo v, rest)
--/
-
-/-- C17, encoding direction, on the supported domain.
-Excluded (`DynSupported false v`): plain tuples/arrays of arity 1 at any depth;
-`i128` values in `2^63 ..= u64::MAX`. -/
-theorem dyn_ser_agrees_partial (fo : FloatOps) (hfo : FloatOk fo) (v : NVal) (s : Schema)
-    (hc : conformsN v s = true) (hf : Faithful fo s v) (hs : DynSupported false v) :
-    dynSer fo s (toJson fo v) = .ok (enc (erase v)) :=
-  ser_val fo hfo v s hc hf.1 hf.2 hs
-
-/-- C17, decoding direction, on the supported domain.
-Excluded (`DynSupported true v`): `char` (decoder is `todo!()`); plain
-tuples/arrays of arity 0 or 1; tuple structs and tuple variants with zero
-fields; `i128` values in `2^63 ..= u64::MAX` — at any depth. -/
-theorem dyn_de_agrees_partial (fo : FloatOps) (hfo : FloatOk fo) (v : NVal) (s : Schema)
-    (hc : conformsN v s = true) (hf : Faithful fo s v) (hs : DynSupported true v)
-    (rest : List Byte) :
     dynDe fo s (enc (erase v) ++ rest) = .ok (toJson fo v, rest) :=
-  de_val fo hfo v s hc hf.1 hf.2 hs rest
+  de_val fo hfo v s hc hf.1 hf.2 rest
 
 /-- the public entry point. -/
-theorem fromSliceDyn_agrees_partial (fo : FloatOps) (hfo : FloatOk fo) (v : NVal) (s : Schema)
-    (hc : conformsN v s = true) (hf : Faithful fo s v) (hs : DynSupported true v) :
+theorem fromSliceDyn_agrees (fo : FloatOps) (hfo : FloatOk fo) (v : NVal) (s : Schema)
+    (hc : conformsN v s = true) (hf : Faithful fo s v) :
     fromSliceDyn fo s (enc (erase v)) = .ok (toJson fo v) := by
-  have := dyn_de_agrees_partial fo hfo v s hc hf hs []
+  have := dyn_de_agrees fo hfo v s hc hf []
   simp only [List.append_nil] at this
   simp [fromSliceDyn, this]
 
-/-- a `FloatOps` satisfying `FloatOk` (used only to instantiate the refutations). -/
+/-- the public encoding entry point. -/
+theorem toStdvecDyn_agrees (fo : FloatOps) (hfo : FloatOk fo) (v : NVal) (s : Schema)
+    (hc : conformsN v s = true) (hf : Faithful fo s v) :
+    toStdvecDyn fo s (toJson fo v) = .ok (enc (erase v)) :=
+  dyn_ser_agrees fo hfo v s hc hf
+
+/-- serde_json's `to_value` / `from_value` round-trip on schema values (used by the `Schema` kind). -/
+theorem schemaOfJson_jsonOfSchema (s : Schema) : schemaOfJson (jsonOfSchema s) = some s :=
+  soj_schema s
+
+/-- a `FloatOps` satisfying `FloatOk` (non-vacuity of the hypotheses). -/
 def foTrivial : FloatOps := ⟨id, id, id, fun _ => 0, fun _ => true, fun _ => true⟩
 theorem foTrivial_ok : FloatOk foTrivial := ⟨fun _ _ _ => rfl, fun _ _ _ => rfl⟩
 
-/-- the full encoding statement is false: `(5u8,)`. -/
-theorem dyn_ser_agrees_false :
-    ¬ (∀ (fo : FloatOps), FloatOk fo → ∀ (v : NVal) (s : Schema), conformsN v s = true →
-        Faithful fo s v → dynSer fo s (toJson fo v) = .ok (enc (erase v))) := by
-  intro h
-  have := h foTrivial foTrivial_ok w1 (.tuple [.u8]) (by decide) ⟨by decide, by decide⟩
-  rw [witness_ser_tuple1] at this
-  cases this
-
-/-- the full decoding statement is false: `[u8; 0]` (also: `char`, `(5u8,)`, `Tup0()`, `E::C()`, `1i128 << 63`). -/
-theorem dyn_de_agrees_false :
-    ¬ (∀ (fo : FloatOps), FloatOk fo → ∀ (v : NVal) (s : Schema), conformsN v s = true →
-        Faithful fo s v → ∀ rest, dynDe fo s (enc (erase v) ++ rest) = .ok (toJson fo v, rest)) := by
-  intro h
-  have := h foTrivial foTrivial_ok w0 (.tuple []) (by decide) ⟨by decide, by decide⟩ []
-  rw [witness_de_tuple0] at this
-  cases this
+/-- non-vacuity: a value exercising chars, tuples of arity 0 and 1, i128 ≥ 2^63 and a schema value is in scope. -/
+example : let v : NVal := .tuple [.char 97, .tuple [], .tuple [.i .w128 (2 ^ 63)], .schema (.seq .char)]
+    let s : Schema := .tuple [.char, .tuple [], .tuple [.i128], .schema]
+    conformsN v s = true ∧ Faithful foTrivial s v := by
+  refine ⟨by decide, by decide, by decide⟩
 
 end Postcard
